@@ -87,6 +87,7 @@ structure Problem where
   s : Setup C
   μ : Fin 6 → Mode C
   k : Fin 6 → C
+  cmax : Q
 
 /-- `Cij(36) m(3) n(3) b(3) p(6c) A(18c) L(18c) k(6c)` -/
 def takeProblem (xs : List Q) : Option (Problem × List Q) := do
@@ -101,7 +102,8 @@ def takeProblem (xs : List Q) : Option (Problem × List Q) := do
   let carr : Array C := tabTen4 (cijkl fun i j => toC (c i j))
   let ms := modeTable p A L
   let karr := k.toArray
-  pure (⟨⟨arrTen4 carr, vecC m, vecC n, vecC b⟩, modeAt ms, arr6 karr⟩, r)
+  let cmax : Q := maxAbsTen4 (cijkl c)
+  pure (⟨⟨arrTen4 carr, vecC m, vecC n, vecC b⟩, modeAt ms, arr6 karr, cmax⟩, r)
 
 def conjModeQ (μ : Mode C) : Mode C := ⟨Cx.conj μ.p, fun i => Cx.conj (μ.A i), fun i => Cx.conj (μ.L i)⟩
 
@@ -172,7 +174,7 @@ def handle (toks : List String) : String :=
           let nnInv : Mat C := arrMat invarr
           let conj := modeEq (P.μ 1) (conjModeQ (P.μ 0)) && modeEq (P.μ 3) (conjModeQ (P.μ 2))
                         && modeEq (P.μ 5) (conjModeQ (P.μ 4))
-          let acc := strohAccept tol rtol P.μ P.k sk
+          let acc := strohAccept tol rtol P.cmax P.μ P.k sk
           let top := fin6.flatMap fun a => vecCs (eigResTop s nnInv (P.μ a))
           let bot := fin6.flatMap fun a => vecCs (eigResBot s nnInv (P.μ a))
           let sext := fin6.flatMap fun a => vecCs (matVec (sextic s (P.μ a).p) (P.μ a).A)
